@@ -175,7 +175,7 @@ func dumpBuffers(d *driver.Driver, res *Result, names map[uint64]string) {
 			progress.Add(1)
 			sum := sha256.Sum256(data)
 			bd := BufDump{Idx: idx, Ctx: ci, Ptr: uint64(b.Ptr), Size: b.Size, SHA: hex.EncodeToString(sum[:8]), Name: names[uint64(b.Ptr)]}
-			if b.Size <= 1<<20 {
+			if b.Size <= 4<<20 {
 				bd.Data = base64.StdEncoding.EncodeToString(data)
 			}
 			res.Buffers = append(res.Buffers, bd)
